@@ -217,6 +217,7 @@ type frame struct {
 type loopInvariant struct {
 	addr *Sym
 	c    *Sym
+	phi  *ssa.Phi // set (and addr nil) for a loop-carried variable instead of a cell
 }
 
 type evNode struct {
@@ -431,6 +432,14 @@ func (tr *Tracer) finish(st *state, end EndKind, ret []*Sym) {
 			switch r.Typ.Underlying().(type) {
 			case *types.Interface, *types.Pointer, *types.Slice, *types.Map:
 			default:
+				continue
+			}
+			if k, known := st.eqc[r.Key()]; known && k.isNilConst() {
+				// a loop-carried variable that is nil on every arrival at the loop header
+				nr := make([]*Sym, len(ret))
+				copy(nr, t.Ret)
+				nr[i] = &Sym{Kind: KConst, Typ: r.Typ}
+				t.Ret = nr
 				continue
 			}
 			if facts == nil {
